@@ -550,7 +550,18 @@ func (fr *frame) applyContract(fc *FuncContract, display string, names []string,
 		}
 		fr.oblige("requires", label, propsOr(r.Props, fr.props), v, "precondition of "+display+": "+r.Text, pos)
 	}
+	recovers := len(fc.Panics) > 0 && fr.top && fr.fn.Recover != nil && len(fr.deferred) > 0 && !fr.inRecovery
+	if recovers {
+		var conds []string
+		for _, p := range fc.Panics {
+			conds = append(conds, env.trBool(p.Expr))
+		}
+		fr.recoverPath(fc, display, or(conds...), st, pos)
+	}
 	for _, p := range fc.Panics {
+		if recovers {
+			break // the panic does not leave this function: see recoverPath
+		}
 		v := env.trBool(p.Expr)
 		fr.oblige("safety", "callpanic:"+display+":"+p.Label, nil, implies(v, fr.panicOK), "callee may panic: "+p.Text, pos)
 		// a panics clause licenses a panic ("only if"); it does not promise one, so
@@ -794,6 +805,13 @@ func (fr *frame) builtin(b *ssa.Builtin, call *ssa.CallCommon, args []Val, st *S
 }
 
 func (fr *frame) recoverVal() Val {
+	if fr.c.recoverTerm != "" {
+		// first recover() on a simulated panic path stops the panic
+		t := fr.c.recoverTerm
+		fr.c.recoverTerm = ""
+		fr.c.recoverCalled = true
+		return Val{T: t, Ty: types.NewInterfaceType(nil, nil)}
+	}
 	if fr.recoverTerm != "" {
 		return Val{T: fr.recoverTerm, Ty: types.NewInterfaceType(nil, nil)}
 	}
@@ -1206,4 +1224,47 @@ func (c *Ctx) optSortKeys(val string, pkg *types.Package) []string {
 		}
 	}
 	return out
+}
+
+// recoverPath models the path on which a callee panics (possible only under
+// its panics condition) and a deferred function of the current function calls
+// recover(): the deferred functions run on the pre-call state with recover()
+// returning the panic value, then the function returns through its recover
+// block with the current values of its named results. The callee must have no
+// caller-visible effects (modifies nothing); the panic value has one of the
+// callee's panics_with types.
+func (fr *frame) recoverPath(fc *FuncContract, display, pcond string, st *State, pos token.Pos) {
+	c := fr.c
+	if len(fc.Modifies) > 0 {
+		fr.unsup("recover after a panic of %s, which modifies caller-visible memory", display)
+		return
+	}
+	saved := fr.curReach
+	fr.curReach = and(saved, pcond)
+	pst := st.clone()
+	rv := c.declConst("panicval", "Iface")
+	fr.assumeR(fmt.Sprintf("(not (= (itag %s) 0))", rv))
+	if len(fc.PanicsWith) > 0 {
+		var alts []string
+		for _, te := range fc.PanicsWith {
+			if t := c.resolveType(te, c.prog.TypesPkgs[fc.Pkg]); t != nil {
+				alts = append(alts, fmt.Sprintf("(= (itag %s) %s)", rv, c.typeTag(t)))
+			}
+		}
+		fr.assumeR(or(alts...))
+	}
+	c.recoverTerm, c.recoverCalled = rv, false
+	fr.inRecovery = true
+	fr.runDefers(pst)
+	c.recoverTerm = ""
+	if !c.recoverCalled {
+		fr.oblige("safety", "callpanic:"+display+":not_recovered", nil, fr.panicOK, "callee may panic and no deferred function recovers", pos)
+	} else {
+		c.assumed["a panic of "+display+" is recovered by the deferred function of "+fr.name+" (modelled: deferred calls run on the pre-call state, recover() yields the panic value, return through the recover block)"] = true
+		for _, ins := range fr.fn.Recover.Instrs {
+			fr.execInstr(ins, pst)
+		}
+	}
+	fr.inRecovery = false
+	fr.curReach = saved
 }
